@@ -98,6 +98,7 @@ func runC03(c *Ctx) {
 			r.Control("prefilter-admits-keys", fired["c03.tooNarrow"] && !fired["c03.wideEnough"], "controls/c03 tooNarrow (n < 4 before a switch with \"ANY\") and wideEnough")
 		}
 	}
+	c03LiteralShortcut(c, c.P)
 	r.Rule("ladder-order", "following the left-operand callee from parseExpression gives a chain of functions whose operator classes appear in the standard order OR, AND, comparison, ||, additive, multiplicative; operator classes of different levels are disjoint")
 	r.Rule("left-assoc", "the OR, AND, ||, additive and multiplicative levels construct their BinaryExpression inside a loop whose Left operand includes the previously built node")
 	r.Rule("operand-symmetry", "where a BinaryExpression is built from two parsed operands, the callee that parsed the right operand is the callee that parsed the left operand (not a looser level, not the function itself: that would fold a chain to the right)")
